@@ -1112,14 +1112,19 @@ class World:
                 self.stats["renames"] += 1
         return r
 
-    async def restart(self):
-        await self.rig.restart()
+    async def restart(self, kill=False):
+        """kill=True: the process is killed at this (quiescent) point instead of shut down."""
+        if kill:
+            await self.rig.kill_restart()
+            self.stats["kill_restarts"] += 1
+        else:
+            await self.rig.restart()
         self.sessions = []
         self.obs = self.rig.session("O")
         for b in self.boxes.values():
             for m in b.msgs:
                 m.flags.discard("\\Recent")
-        self.note("== orderly restart ==")
+        self.note("== restart after a kill ==" if kill else "== orderly restart ==")
         self.stats["restarts"] += 1
 
 
